@@ -21,7 +21,9 @@
 EXTENDS WorkspaceFiles, Text
 
 AllFiles(c) == 1..Len(c.files)
-AllOcc(c) == UNION { c.files[i].occ : i \in AllFiles(c) }
+\* the probe document includes the root: what it may be offered is what the files of the ROOT'S TREE contain
+\* (a file of the folder that nothing includes is not part of the journal)
+AllOcc(c) == UNION { c.files[i].occ : i \in c.files[1].tree }
 
 AccountNames(c)   == { r.account : r \in c.tables[1].postings } \cup { o.name : o \in { x \in AllOcc(c) : x.k = "account" } }
 PayeeNames(c)     == { r.payee : r \in c.tables[1].txcount }
